@@ -23,6 +23,11 @@ func (c *ClientChannel) receiveSessionFromServer(ctx context.Context) (*Session,
 		return nil, fmt.Errorf("receive session: %w", err)
 	}
 
+	if state := c.State(); ses.State.Step() < state.Step() {
+		// The server cannot move the session backwards
+		return nil, fmt.Errorf("receive session: unexpected %v state in the %v state", ses.State, state)
+	}
+
 	if ses.State == SessionStateEstablished {
 		c.localNode = ses.To
 		c.remoteNode = ses.From
